@@ -1227,6 +1227,31 @@ theorem restart_tidy (s : St) (h : TidyS s) : TidyS s.restart := by
   obtain ⟨a, b⟩ := reload_tidy s.client h.inv h.tidy
   exact ⟨a, b⟩
 
+theorem release_tidy (s : St) (t : TowerId) (m : AddMode) (h : TidyS s) : TidyS (s.release t m) := by
+  unfold St.release
+  simp only
+  split
+  · exact retry_tidy _ t (h.of_client rfl)
+  · exact h.of_client rfl
+
+theorem holdTurn_tidy (t : TowerId) (l : Loc) (acc : St) (x : TowerId) (h : TidyS acc) :
+    TidyS (holdTurn t l acc x) := by
+  unfold holdTurn
+  split
+  · have hh := hookTower_tidy acc t l h
+    generalize hookTower acc t l = r at hh
+    obtain ⟨s1, start⟩ := r
+    simp only at hh ⊢
+    split
+    · exact retry_tidy _ t (hh.of_client rfl)
+    · exact hh.of_client rfl
+  · exact notifyTower_tidy acc x l h
+
+theorem holdAfter_tidy (s : St) (t : TowerId) (l : Loc) (h : TidyS s) : TidyS (s.holdAfter t l) := by
+  unfold St.holdAfter
+  simp only
+  exact tidy_foldl (holdTurn t l) (fun a x ha => holdTurn_tidy t l a x ha) _ _ (h.of_client rfl)
+
 /-- **every event keeps the client tidy** -/
 theorem step_tidy (s : St) (ev : Ev) (h : TidyS s) : TidyS (s.step ev).1 := by
   cases ev with
@@ -1236,6 +1261,8 @@ theorem step_tidy (s : St) (ev : Ev) (h : TidyS s) : TidyS (s.step ev).1 := by
   | retry t => exact manualRetry_tidy s t h
   | abandon t => exact abandon_tidy s t h
   | restart => exact restart_tidy s h
+  | release t m => exact release_tidy s t m h
+  | holdAfter t l => exact holdAfter_tidy s t l h
 
 theorem TidyS.init : TidyS ({} : St) := ⟨Inv.fresh, Tidy.fresh⟩
 
